@@ -142,7 +142,9 @@ ANCHORS = {
               "Cell.add_unbranched_segments", "Cell.add_membrane_property", "Cell.add_intracellular_property",
               "Cell.set_spike_thresh", "Cell.set_init_memb_potential", "Cell.set_resistivity",
               "Cell.set_specific_capacitance", "Cell.optimise_segment_group", "Cell.optimise_segment_groups",
-              "Cell.get_segment_group", "Cell.setup_nml_cell"],
+              "Cell.get_segment_group", "Cell.setup_nml_cell",
+              # second pass: the channel-density helpers and the id lookup add_segment's duplicate check goes through
+              "Cell.add_channel_density", "Cell.add_channel_density_v", "Cell.get_segment"],
     },
     "C16": {
         # the private sectioniser is `Cell.__sectionise` in the source (name mangling only changes the attribute name,
